@@ -399,6 +399,48 @@ class Analyzer:
             return self.enumerate_source(["C", [rv[2][1][0]]], depth + 1)
         return None
 
+    def count_source(self, op, depth=0):
+        """root of the collection of which this operand counts items: `x.iter()[.take_while(p) | .filter(p) | .skip(n) | .skip_while(p) | .take(n) | .rev()].count()` (or the
+        position / index found by `position`), else None.  Such a number is at most x.len(): adaptors that can only drop items do not lengthen the iteration."""
+        if op[0] not in ("C", "M") or depth > 12:
+            return None
+        l = op[1][0]
+        defs = self.B.defs.get(l, [])
+        if len(defs) != 1:
+            return None
+        bi, si, kind, st = defs[0]
+        if kind == "call":
+            p = st["f"].get("o") or st["f"].get("p") or ""
+            if re.search(r"Iterator::count$", p) and st["args"]:
+                return self.shrinking_chain_root(st["args"][0])
+            return None
+        rv = st[2]
+        if rv[0] == "Use" and rv[1][0] in ("C", "M") and len(rv[1][1]) == 1:
+            return self.count_source(["C", [rv[1][1][0]]], depth + 1)
+        return None
+
+    def shrinking_chain_root(self, op, depth=0):
+        if op[0] not in ("C", "M") or depth > 12:
+            return None
+        l = op[1][0]
+        defs = self.B.defs.get(l, [])
+        if len(defs) != 1:
+            return None
+        bi, si, kind, st = defs[0]
+        if kind == "call":
+            p = st["f"].get("o") or st["f"].get("p") or ""
+            if re.search(r"Iterator::(take_while|filter|skip|skip_while|take|rev|copied|cloned|by_ref|peekable|enumerate|map|inspect|step_by|fuse)$", p) and st["args"]:
+                return self.shrinking_chain_root(st["args"][0], depth + 1)
+            if re.search(r"(IntoIterator::into_iter|slice::<impl \[T\]>::iter|::iter|::chars|::bytes)$", p) and st["args"]:
+                return self.operand_root(st["args"][0]) if st["args"][0][0] in ("C", "M") else None
+            return None
+        rv = st[2]
+        if rv[0] == "Use" and rv[1][0] in ("C", "M"):
+            return self.shrinking_chain_root(["C", [rv[1][1][0]]], depth + 1)
+        if rv[0] in ("Ref", "RawPtr"):
+            return self.shrinking_chain_root(["C", [rv[2][0]]], depth + 1)
+        return None
+
     def equal_lengths(self, r1, r2, facts):
         """a dominating test established len(r1) == len(r2)"""
         for f in facts:
@@ -704,6 +746,48 @@ class Analyzer:
         return False
 
 
+def range_start_operand(arg, A):
+    if arg[0] not in ("C", "M"):
+        return None
+    for (bi, si, kind, st) in A.B.defs.get(arg[1][0], []):
+        if kind == "assign" and st[2][0] == "Agg" and isinstance(st[2][1], list) and st[2][1][0] == "adt" and re.search(r"ops::range::Range(From)?$", st[2][1][1]) and st[2][2]:
+            return st[2][2][0]
+    return None
+
+
+def min_with_len(A, op, r):
+    """the operand is `x.min(len(r))` / `min(x, len(r))`: at most the length of the indexed collection"""
+    if op is None or op[0] not in ("C", "M"):
+        return False
+    l = op[1][0]
+    for _ in range(6):
+        defs = A.B.defs.get(l, [])
+        if len(defs) != 1:
+            return False
+        bi, si, kind, st = defs[0]
+        if kind == "call":
+            p = st["f"].get("o") or st["f"].get("p") or ""
+            if re.search(r"(cmp::Ord::min|cmp::min)$", p) and len(st["args"]) == 2:
+                return any(A.sym(a) == ("len", r) for a in st["args"])
+            return False
+        rv = st[2]
+        if rv[0] == "Use" and rv[1][0] in ("C", "M") and len(rv[1][1]) == 1:
+            l = rv[1][1][0]
+            continue
+        return False
+    return False
+
+
+def kind_has_end_operand(arg, A):
+    """the operand that is the end of a `..end` / `start..end` range aggregate passed as index argument, else None"""
+    if arg[0] not in ("C", "M"):
+        return None
+    for (bi, si, kind, st) in A.B.defs.get(arg[1][0], []):
+        if kind == "assign" and st[2][0] == "Agg" and isinstance(st[2][1], list) and st[2][1][0] == "adt" and re.search(r"ops::range::Range(To)?$", st[2][1][1]) and st[2][2]:
+            return st[2][2][-1]
+    return None
+
+
 def shape(x):
     if x[0] == "c":
         return str(x[1])
@@ -1002,6 +1086,8 @@ def discharge(F, A, s):
             return None
         if k == "Overflow:Add":
             a, b = A.sym(s.ops[0]), A.sym(s.ops[1])
+            if all(bounded_by_allocation(v) or A.count_source(o) is not None for v, o in ((a, s.ops[0]), (b, s.ops[1]))):
+                return ("length-arith", "the sum of two collection lengths / element counts (each at most isize::MAX) cannot overflow usize")
             for x, y, xo in ((a, b, s.ops[0]), (b, a, s.ops[1])):
                 if y[0] == "c" and 0 <= y[1] <= 4096 and bounded_by_allocation(x):
                     return ("length-arith", "a collection length / element index (at most isize::MAX) plus %d cannot overflow usize" % y[1])
@@ -1071,8 +1157,9 @@ def discharge(F, A, s):
                 if rg is not None:
                     lo, hi, kind = rg
                     ln = ("len", r)
-                    ok_lo = lo is None or lo == ("c", 0) or A.less_than(lo, ln, facts, strict=False) or (hi is not None and A.less_than(lo, hi, facts, strict=False) and A.less_than(hi, ln, facts, strict=False))
-                    ok_hi = hi is None or A.less_than(hi, ln, facts, strict=False)
+                    ok_lo = lo is None or lo == ("c", 0) or A.less_than(lo, ln, facts, strict=False) or (hi is not None and A.less_than(lo, hi, facts, strict=False) and A.less_than(hi, ln, facts, strict=False)) \
+                        or min_with_len(A, range_start_operand(args[1], A), r)
+                    ok_hi = hi is None or A.less_than(hi, ln, facts, strict=False) or (kind_has_end_operand(args[1], A) is not None and A.count_source(kind_has_end_operand(args[1], A)) == r)
                     ok_order = lo is None or hi is None or lo == ("c", 0) or A.less_than(lo, hi, facts, strict=False)
                     if ok_lo and ok_hi and ok_order and "str" not in A.B.local_ty(args[0][1][0]) and "String" not in A.B.local_ty(args[0][1][0]):
                         return ("range-guard", "slice range %s..%s under dominating tests establishing start <= end <= len" % (shape(lo) if lo else "", shape(hi) if hi else ""))
